@@ -251,3 +251,230 @@ example : serverLoop 3 { script := [.data [1, 1, 0, 20], .stall, .data (List.rep
           serverLoop 3 { script := [.data ([1, 1, 0, 20] ++ List.replicate 16 7)] } := by decide
 
 end Rsp.Props.C16
+
+namespace Rsp.Props.C16
+open Rsp Rsp.Stream
+
+/-! ### the reader with timeout (`tcpclientrd`): what is extracted is always a prefix of the stream's framing -/
+
+theorem pollScript_nb (l : List Ev) :
+    match pollScript false l with
+    | (.ready, b, r, c) => b ≠ [] ∧ b ++ dataOf r = dataOf l ∧ c = false
+    | (.timeout, b, r, c) => b = [] ∧ dataOf r = dataOf l ∧ c = false
+    | (.hup, _, _, _) => True := by
+  induction l with
+  | nil => simp [pollScript, dataOf]
+  | cons e r ih =>
+    cases e with
+    | data b =>
+      by_cases hb : b = []
+      · subst hb
+        simpa [pollScript, dataOf] using ih
+      · simp [pollScript, hb, dataOf]
+    | stall => simp [pollScript, dataOf]
+    | eof => simp [pollScript]
+
+theorem poll_nb (s : Sock) :
+    match poll false s with
+    | (.ready, s') => s'.buf ≠ [] ∧ pending s' = pending s
+    | (.timeout, s') => s'.buf = [] ∧ pending s' = pending s
+    | (.hup, _) => True := by
+  unfold poll
+  by_cases hc : s.closed = true
+  · simp [hc]
+  · simp only [hc, if_false]
+    by_cases hb : s.buf = []
+    · simp only [hb, List.isEmpty_nil, Bool.not_true, if_false]
+      have := pollScript_nb s.script
+      generalize pollScript false s.script = res at this
+      obtain ⟨p, b, r, c⟩ := res
+      cases p with
+      | ready => simp only at this ⊢; exact ⟨this.1, by simp [pending, hb, this.2.1]⟩
+      | timeout => simp only at this ⊢; exact ⟨this.1, by simp [pending, hb, this.1, this.2.1]⟩
+      | hup => trivial
+    · have : s.buf.isEmpty = false := by cases hs : s.buf <;> simp_all
+      simp only [this, Bool.not_false, if_true]
+      exact ⟨hb, rfl⟩
+
+/-- what one read with timeout can report: the next octets of the stream, exactly; or a timeout with
+    nothing consumed; or an error -/
+theorem readN_nb (fuel : Nat) (s : Sock) (num : Nat) (acc : Bytes) (hf : num - acc.length + 1 ≤ fuel) :
+    match readN false fuel s num acc with
+    | (.ok x, s') => x = acc ++ (pending s).take (num - acc.length) ∧ num - acc.length ≤ (pending s).length ∧
+                     pending s' = (pending s).drop (num - acc.length)
+    | (.timeout, s') => acc = [] ∧ pending s' = pending s
+    | (.err, _) => True := by
+  induction fuel generalizing s acc with
+  | zero => omega
+  | succ fuel ih =>
+    unfold readN
+    by_cases hdone : num ≤ acc.length
+    · simp only [hdone, if_true]
+      have h0 : num - acc.length = 0 := by omega
+      simp [h0]
+    · simp only [hdone, if_false]
+      have hp := poll_nb s
+      generalize poll false s = pr at hp
+      obtain ⟨p, s'⟩ := pr
+      cases p with
+      | hup => trivial
+      | timeout =>
+        simp only at hp ⊢
+        by_cases ha : acc.isEmpty = true
+        · simp only [ha, if_true]
+          exact ⟨by simpa using ha, hp.2⟩
+        · simp [ha]
+      | ready =>
+        simp only at hp ⊢
+        obtain ⟨hne, hpend⟩ := hp
+        let k := min (num - acc.length) s'.buf.length
+        have hk1 : 1 ≤ k := by
+          have : 1 ≤ s'.buf.length := by cases hb : s'.buf <;> simp_all
+          show 1 ≤ min (num - acc.length) s'.buf.length
+          omega
+        have hkle : k ≤ s'.buf.length := Nat.min_le_right _ _
+        have hkneed : k ≤ num - acc.length := Nat.min_le_left _ _
+        let s2 : Sock := { s' with buf := s'.buf.drop k }
+        have hp2 : pending s2 = (pending s).drop k := by
+          show s'.buf.drop k ++ dataOf s'.script = (pending s).drop k
+          rw [← hpend]
+          show _ = (s'.buf ++ dataOf s'.script).drop k
+          rw [List.drop_append_of_le_length hkle]
+        have htake : s'.buf.take k = (pending s).take k := by
+          rw [← hpend]
+          show _ = (s'.buf ++ dataOf s'.script).take k
+          rw [List.take_append_of_le_length hkle]
+        have hbl : s'.buf.length ≤ (pending s).length := by rw [← hpend]; simp [pending]
+        have hlen2 : (acc ++ s'.buf.take k).length = acc.length + k := by
+          simp [List.length_take, Nat.min_eq_left hkle]
+        have ih2 := ih s2 (acc ++ s'.buf.take k) (by rw [hlen2]; omega)
+        rw [hlen2] at ih2
+        show (match readN false fuel s2 num (acc ++ s'.buf.take k) with
+          | (.ok x, s'') => x = acc ++ (pending s).take (num - acc.length) ∧ num - acc.length ≤ (pending s).length ∧
+                           pending s'' = (pending s).drop (num - acc.length)
+          | (.timeout, s'') => acc = [] ∧ pending s'' = pending s
+          | (.err, _) => True)
+        generalize readN false fuel s2 num (acc ++ s'.buf.take k) = res at ih2
+        obtain ⟨r, s3⟩ := res
+        cases r with
+        | err => trivial
+        | timeout =>
+          -- impossible: the accumulated octets are not empty any more
+          simp only at ih2
+          have := congrArg List.length ih2.1
+          rw [hlen2] at this
+          simp at this
+          omega
+        | ok x =>
+          simp only at ih2 ⊢
+          obtain ⟨hx, hen, hp3⟩ := ih2
+          rw [hp2, List.length_drop] at hen
+          refine ⟨?_, by omega, ?_⟩
+          · rw [hx, hp2, htake, List.append_assoc]
+            congr 1
+            have e1 : num - (acc.length + k) = (num - acc.length) - k := by omega
+            have e2 : num - acc.length = k + ((num - acc.length) - k) := by omega
+            rw [e1]
+            conv => rhs; rw [e2, List.take_add]
+          · rw [hp3, hp2, List.drop_drop]
+            congr 1; omega
+
+/-- one `radtcpget` with timeout: a packet is always the first frame of the pending stream; a timeout
+    consumes nothing; anything else ends the connection -/
+theorem radGet_nb (s : Sock) :
+    match radGet false s with
+    | (.pkt b, s') => frameStep (pending s) = (.pkt b, pending s')
+    | (.timeout, s') => pending s' = pending s
+    | (.closed _, _) => True := by
+  unfold radGet
+  have h1 := readN_nb 5 s 4 [] (by simp)
+  simp only [List.length_nil, Nat.sub_zero, List.nil_append] at h1
+  generalize readN false 5 s 4 [] = r1 at h1
+  obtain ⟨res1, s1⟩ := r1
+  cases res1 with
+  | err => trivial
+  | timeout => simp only at h1 ⊢; exact h1.2
+  | ok hdr =>
+    simp only at h1 ⊢
+    obtain ⟨hh, h4, hp1⟩ := h1
+    by_cases hbad : radLen hdr < 20 ∨ radLen hdr > 4096
+    · simp only [hbad, if_true]
+    · simp only [hbad, if_false]
+      have h2 := readN_nb (radLen hdr - 4 + 1) s1 (radLen hdr - 4) [] (by simp)
+      simp only [List.length_nil, Nat.sub_zero, List.nil_append] at h2
+      generalize readN false (radLen hdr - 4 + 1) s1 (radLen hdr - 4) [] = r2 at h2
+      obtain ⟨res2, s2⟩ := r2
+      cases res2 with
+      | err => trivial
+      | timeout => trivial
+      | ok body =>
+        simp only at h2 ⊢
+        obtain ⟨hb, hen, hp2⟩ := h2
+        rw [hp1, List.length_drop] at hen
+        subst hh
+        unfold frameStep
+        have h4' : ¬ (pending s).length < 4 := by omega
+        have hshort : ¬ (pending s).length < radLen ((pending s).take 4) := by omega
+        simp only [h4', if_false, hbad, hshort]
+        have e : radLen ((pending s).take 4) = 4 + (radLen ((pending s).take 4) - 4) := by omega
+        have key : (pending s).take 4 ++ ((pending s).drop 4).take (radLen ((pending s).take 4) - 4) =
+            (pending s).take (radLen ((pending s).take 4)) := by
+          conv => rhs; rw [e, List.take_add]
+        have key2 : pending s2 = (pending s).drop (radLen ((pending s).take 4)) := by
+          rw [hp2, hp1, List.drop_drop]
+          congr 1; omega
+        rw [hb, hp1, key, key2]
+
+theorem frameStep_pkt (p b rest : Bytes) (h : frameStep p = (.pkt b, rest)) : rest.length + 20 ≤ p.length := by
+  unfold frameStep at h
+  by_cases h4 : p.length < 4
+  · simp [h4] at h
+  · simp only [h4, if_false] at h
+    by_cases hbad : radLen (p.take 4) < 20 ∨ radLen (p.take 4) > 4096
+    · simp [hbad] at h
+    · simp only [hbad, if_false] at h
+      by_cases hshort : p.length < radLen (p.take 4)
+      · simp [hshort] at h
+      · simp only [hshort, if_false, Prod.mk.injEq] at h
+        rw [← h.2, List.length_drop]
+        omega
+
+def pktsOf : List Out → List Bytes
+  | [] => []
+  | .pkt b :: r => b :: pktsOf r
+  | _ :: r => pktsOf r
+
+/-- **C16 (reader with timeout).** Whatever the peer's writes, silences and end of stream: the packets
+    `tcpclientrd` hands to `replyh` are a prefix of the frame decomposition of the octets written. No partial
+    or misframed packet is ever processed. -/
+theorem client_packets_prefix_of_framing (fuel : Nat) (s : Sock) (rounds : Nat) (F : Nat)
+    (hF : (pending s).length + 1 ≤ F) :
+    pktsOf (clientLoop fuel s rounds) <+: pktsOf (framesOut F (pending s)) := by
+  induction fuel generalizing s rounds F with
+  | zero => simp [clientLoop, pktsOf]
+  | succ fuel ih =>
+    unfold clientLoop
+    have hg := radGet_nb s
+    generalize radGet false s = rg at hg
+    obtain ⟨o, s'⟩ := rg
+    cases o with
+    | closed c => simp [pktsOf]
+    | timeout =>
+      simp only at hg ⊢
+      split
+      · split
+        · simp [pktsOf]
+        · simp only [pktsOf]; rw [← hg]; exact ih s' _ F (by rw [hg]; exact hF)
+      · simp only [pktsOf]; rw [← hg]; exact ih s' _ F (by rw [hg]; exact hF)
+    | pkt b =>
+      simp only at hg ⊢
+      obtain ⟨F', rfl⟩ : ∃ F', F = F' + 1 := ⟨F - 1, by omega⟩
+      rw [framesOut_step, hg]
+      simp only [pktsOf]
+      -- the frame has at least 20 octets, so the rest is shorter
+      have hlen : (pending s').length + 1 ≤ F' := by
+        have := frameStep_pkt _ _ _ hg
+        omega
+      exact List.prefix_cons_inj _ |>.mpr (ih s' rounds F' hlen)
+
+end Rsp.Props.C16
